@@ -103,13 +103,14 @@ theorem sem_holder_release_enabled (p : Prog) (hp : okProg p = true) (n : Nat) (
 def Programs.all : List (String × Prog) :=
   [("syncx.Limit", Programs.limitClient), ("syncx.TimeoutLimit", Programs.timeoutLimitClient),
    ("threading.TaskRunner", Programs.runner), ("rest/handler.MaxConnsHandler", Programs.maxConns),
-   ("mr.executeMappers", Programs.executeMappers), ("fx.walkLimited", Programs.walkLimited)]
+   ("mr.executeMappers", Programs.executeMappers), ("fx.walkLimited", Programs.walkLimited),
+   ("syncx.Guard", Programs.barrierGuard)]
 
 /-- every site obeys the discipline: acquire before the guarded function (and before `go`), release
 reachable from BOTH exits of the guarded function (release-in-defer), nothing held at the end. -/
 theorem sites_disciplined : ∀ x ∈ Programs.all, okProg x.2 = true := by decide
 
-/-- **C05 for the six semaphore sites**: at no reachable instant more than `n` holders inside the guarded region. -/
+/-- **C05 for the semaphore sites**: at no reachable instant more than `n` holders inside the guarded region. -/
 theorem sites_cap (name : String) (p : Prog) (hx : (name, p) ∈ Programs.all) (n : Nat) (s : St)
     (h : Reach p n s) (l : List Tid) (hl : l.Nodup) (hin : ∀ t ∈ l, inCrit p s t = true) : l.length ≤ n :=
   sem_cap p (sites_disciplined _ hx) n s h l hl hin
@@ -211,6 +212,91 @@ theorem workers_wait_means_none_running (p : Prog) (hp : p = Programs.executeMap
       next => cases hc
     have := tracks_pos hw t hW
     omega
+
+/-! ## 2b. RoutineGroup / WorkerGroup / Barrier -/
+
+/-- **`RoutineGroup.Wait` returning means every function started with `Run`/`RunSafe` has ended** (normally
+or by panic: `Done` is deferred), for any number of calls in any interleaving. -/
+theorem routineGroup_wait_means_done (n : Nat) (s : St) (h : Reach Programs.routineGroup n s) (hz : s.wg = 0)
+    (t : Tid) : inCrit Programs.routineGroup s t = false := by
+  have hw := reach_wg (p := Programs.routineGroup) (by decide) h
+  cases hc : inCrit Programs.routineGroup s t
+  · rfl
+  · exfalso
+    have hW : W Programs.routineGroup (s.pc t) = true := by
+      unfold inCrit at hc
+      split at hc
+      next r hr =>
+        rw [W_of_row hr]
+        have key : ∀ r ∈ Programs.routineGroup, isUser r.instr = true → r.inWg = true := by decide
+        exact key r (List.mem_of_getElem? hr) hc
+      next => cases hc
+    have := tracks_pos hw t hW
+    omega
+
+/-- **`WorkerGroup.Start` with `workers = k`**: its loop makes exactly `k` `RunSafe` calls (tied:
+`for i < wg.workers`), i.e. only `k` threads of the model ever act — at no instant are more than `k` jobs
+running, whatever the interleaving and whichever of them panic. -/
+theorem workerGroup_cap (n k : Nat) (s : St) (h : ReachK Programs.routineGroup n k s)
+    (l : List Tid) (hl : l.Nodup) (hin : ∀ t ∈ l, inCrit Programs.routineGroup s t = true) : l.length ≤ k := by
+  apply nodup_lt_length hl
+  intro t ht
+  rcases Nat.lt_or_ge t k with hlt | hge
+  · exact hlt
+  · exfalso
+    have h0 := reachK_untouched h t hge
+    have := hin t ht
+    simp [inCrit, h0, Programs.routineGroup, isUser] at this
+
+/-- … and when its `group.Wait()` returns, all `k` jobs have ended. -/
+theorem workerGroup_start_returns_after_all (n k : Nat) (s : St) (h : ReachK Programs.routineGroup n k s)
+    (hz : s.wg = 0) (t : Tid) : inCrit Programs.routineGroup s t = false :=
+  routineGroup_wait_means_done n s (reachK_reach h) hz t
+
+/-- non-vacuity: three `RunSafe` calls, two jobs running at once, one of them panics, `wg` is 3 then. -/
+example :
+    (runSched Programs.routineGroup (St.init 1)
+        [(0, false), (0, false), (0, false), (0, false), (1, false), (1, false), (1, false), (1, false),
+         (2, false), (2, false), (2, false), (0, true)]).map
+      (fun s => (inCrit Programs.routineGroup s 0, inCrit Programs.routineGroup s 1, s.wg))
+      = some (false, true, 3) := by decide
+
+/-- **`syncx.Barrier.Guard` / `syncx.Guard`: mutual exclusion** (a mutex is a limiter of capacity 1, released
+in a `defer`): two callers are never inside `fn` at once, also after panics. -/
+theorem barrier_mutual_exclusion (s : St) (h : Reach Programs.barrierGuard 1 s) (t u : Tid)
+    (ht : inCrit Programs.barrierGuard s t = true) (hu : inCrit Programs.barrierGuard s u = true) : t = u := by
+  apply Classical.byContradiction
+  intro hne
+  have := sem_cap Programs.barrierGuard (by decide) 1 s h [t, u] (by simp [hne]) (by
+    intro x hx
+    simp only [List.mem_cons, List.not_mem_nil, or_false] at hx
+    rcases hx with rfl | rfl <;> assumption)
+  simp at this
+
+/-! ## 2c. configuration decision tables -/
+
+/-- `WithWorkers(k)` never yields a capacity below 1 (so `n ≥ 1` holds for mr/fx whatever is configured),
+is the identity from 1 on, and floors everything else to `minWorkers = 1`. -/
+theorem effWorkers_spec (k : Int) :
+    1 ≤ effWorkers k ∧ (1 ≤ k → effWorkers k = k) ∧ (k ≤ 0 → effWorkers k = 1) := by
+  unfold effWorkers
+  refine ⟨?_, ?_, ?_⟩ <;> split <;> omega
+
+/-- the REST engine's per-route connection cap: a limit exists iff the middleware is on and
+`MaxConns > 0`, and then it is exactly `MaxConns`. -/
+theorem engineCap_spec (on : Bool) (m : Int) :
+    (engineCap on m = none ↔ (on = false ∨ m ≤ 0)) ∧ (∀ n, engineCap on m = some n → on = true ∧ 0 < m ∧ (n : Int) = m) := by
+  unfold engineCap
+  constructor
+  · cases on <;> simp
+  · intro n h
+    cases on
+    · simp at h
+    · simp only [if_true] at h
+      split at h
+      · cases h
+      · injection h with h
+        exact ⟨rfl, by omega, by omega⟩
 
 /-! ## 3. the limiting object by itself: any callers, no contract -/
 
@@ -364,6 +450,72 @@ example :
 
 example : ((Pool.init 1 10).put 0 5).get 20 = ({ limit := 1, maxAge := 10, created := 0, idle := [], next := 1 }, .got 0 true [0]) := by
   decide
+
+/-- **A `Get` that has to wait changes nothing** (in a reachable state): it reaches `cond.Wait()` with the pool
+exactly as it found it, so the waiting call is a retry of the same `Get` later — `PSys.step` taking a waking
+`Get` as a fresh atomic `get` loses no behaviour. -/
+theorem pool_wait_changes_nothing (limit maxAge : Nat) (s : PSys) (h : PReach limit maxAge s) (now : Nat)
+    (d : List Nat) (hw : (s.pool.get now).2 = .wait d) : (s.pool.get now).1 = s.pool ∧ d = [] := by
+  have hi := preach_inv h
+  have spec := getLoop_spec s.pool.limit s.pool.maxAge now s.pool.next s.pool.idle s.pool.created []
+  have hd := getLoop_destroyed s.pool.limit s.pool.maxAge now s.pool.next s.pool.idle s.pool.created []
+  unfold Pool.get at hw ⊢
+  revert spec hd hw
+  generalize getLoop s.pool.limit s.pool.maxAge now s.pool.next s.pool.idle s.pool.created [] = r
+  obtain ⟨p', res⟩ := r
+  intro hw spec hd
+  simp only at hw
+  subst hw
+  obtain ⟨h1, h2, h3, h4, h5, h6⟩ := spec
+  obtain ⟨pre, hpre, _, hdd, _⟩ := hd
+  simp only [List.nil_append] at hdd
+  have hc := hi.count
+  have hl := hi.le_limit
+  rw [hi.lim] at h6
+  have hz : s.pool.idle.length = 0 := by omega
+  have hnil : s.pool.idle = [] := List.eq_nil_of_length_eq_zero hz
+  have hprenil : pre = [] := by
+    rw [hnil] at hpre
+    exact List.prefix_nil.mp hpre
+  refine ⟨?_, by rw [hdd, hprenil]; rfl⟩
+  simp only at h1 h2 h3 h4 h5 ⊢
+  rw [hnil] at h5
+  simp only [List.length_nil] at h5
+  have h5' : p'.created = s.pool.created := by omega
+  cases p' with
+  | mk l' m' c' i' nx' =>
+    cases hs : s.pool with
+    | mk l m c i nx =>
+      rw [hs] at h1 h2 h4 h5' hnil
+      simp only at h1 h2 h3 h4 h5' hnil
+      subst h1 h2 h3 h4 h5' hnil
+      rfl
+
+/-- **Decision on a panicking `create` callback** (re-reading the property: "after all holders have finished,
+including by panic, the full capacity is available again" quantifies over panics INSIDE HOLDERS; a caller
+whose `create` panics never becomes a holder — it is outside the quantifier and is a broken caller contract
+like a foreign `Put`).  What the code does, stated so that nobody has to guess: `p.created++` has run, the
+panic leaves through the deferred `Unlock`, nothing decrements — the counter is one higher than the
+number of living resources, for ever.  Witness with `limit = 1`: after one panicking create nothing is in
+use, nothing is idle, and every later `Get` waits. -/
+theorem pool_create_panic_keeps_slot :
+    let p1 := ((Pool.init 1 0).getCreatePanics 0).1
+    ((Pool.init 1 0).getCreatePanics 0).2.2 = true ∧ p1.created = 1 ∧ p1.idle = [] ∧ (p1.get 1).2 = .wait [] := by
+  decide
+
+/-- on the paths that do not call `create` (an idle resource is reused, or the call waits) a panicking
+`create` makes no difference. -/
+theorem pool_create_panic_only_on_create_path (p : Pool) (now : Nat) (h : (p.getCreatePanics now).2.2 = false) :
+    (p.getCreatePanics now).1 = (p.get now).1 ∧ (p.getCreatePanics now).2.1 = (p.get now).2 := by
+  unfold Pool.getCreatePanics at h ⊢
+  generalize p.get now = r at h ⊢
+  obtain ⟨p', res⟩ := r
+  cases res with
+  | wait d => exact ⟨rfl, rfl⟩
+  | got item fresh d =>
+    cases fresh with
+    | false => exact ⟨rfl, rfl⟩
+    | true => simp at h
 
 /-! ## 5. the history monitor is sound for the model -/
 
